@@ -23,7 +23,7 @@ import (
 
 func Main() {
 	mc.Main("C01", "model_checking",
-		"all histories over {write(key 1|2, cookie A|B, payload empty|1B|9B, metadata none|name+mime|full), delete(key, cookie), readonly on/off, reopen} on a real Store volume: every sequence unmerged to depth d0, then breadth-first with state merging on (reference map, read-only flag, real volume shape: per key index entry + all 4 reads + counters) to depth d1; after every event all keys are read with both cookies and compared with a reference map; both needle-map kinds",
+		"all histories over {write(key 1|2, cookie A|B, payload empty|1B|9B|9B-other-bytes, metadata none|name+mime|full), delete(key, cookie), readonly on/off, reopen} on a real Store volume: every sequence unmerged to depth d0, then breadth-first with state merging on (reference map, read-only flag, real volume shape: per key index entry + all 4 reads + counters) to depth d1; after every event all keys are read with both cookies and compared with a reference map; both needle-map kinds",
 		run)
 }
 
@@ -33,7 +33,7 @@ type Event struct {
 	Op      string `json:"op"` // W D RO+ RO- REOPEN REOPEN-FRESH REOPEN-REGEN
 	Key     uint64 `json:"key,omitempty"`
 	Cookie  int    `json:"cookie,omitempty"`  // index into cookies
-	Payload int    `json:"payload,omitempty"` // 0 empty, 1 one byte, 2 nine bytes
+	Payload int    `json:"payload,omitempty"` // 0 empty, 1 one byte, 2 nine bytes, 3 nine other bytes
 	Meta    int    `json:"meta,omitempty"`    // 0 none, 1 name+mime, 2 name+mime+pairs+lastModified+compressed
 }
 
@@ -56,6 +56,8 @@ func payload(key uint64, cookie, shape int) []byte {
 		return []byte{byte('a' + int(key)*2 + cookie)}
 	case 2:
 		return []byte(fmt.Sprintf("k%dc%d-5678", key, cookie))
+	case 3: // same length as shape 2, different content: an overwrite that only a byte comparison tells apart
+		return []byte(fmt.Sprintf("k%dc%d-ALT!", key, cookie))
 	}
 	return []byte{}
 }
@@ -628,11 +630,15 @@ func run(r *mc.Run) {
 	if r.Quick() {
 		search(r, "memory", storage.NeedleMapInMemory, []int{2, 0}, []int{0, 2}, 2, 3, 99, 0)
 		search(r, "leveldb", storage.NeedleMapLevelDb, []int{2, 0}, []int{0, 2}, 1, 2, 99, 0)
+		// overwrites of equal length and equal cookie with different bytes (isFileUnchanged must compare content)
+		search(r, "memory-samelen", storage.NeedleMapInMemory, []int{2, 3}, []int{0}, 2, 3, 99, 0)
 	} else {
 		// the quick search one level deeper, then the full alphabet at the quick depth
 		search(r, "memory", storage.NeedleMapInMemory, []int{2, 0}, []int{0, 2}, 2, 4, 99, 0)
 		search(r, "memory-full-alphabet", storage.NeedleMapInMemory, []int{1, 0, 2}, []int{0, 1, 2}, 2, 3, 99, 0)
 		search(r, "leveldb", storage.NeedleMapLevelDb, []int{2, 0}, []int{0, 2}, 2, 3, 99, 0)
+		search(r, "memory-samelen", storage.NeedleMapInMemory, []int{2, 3}, []int{0, 2}, 2, 4, 99, 0)
+		search(r, "leveldb-samelen", storage.NeedleMapLevelDb, []int{2, 3}, []int{0}, 2, 3, 99, 0)
 	}
 	r.Sample("history", witness{Kind: "memory", Path: []Event{{Op: "W", Key: 1, Cookie: 0, Payload: 2, Meta: 2}, {Op: "D", Key: 1, Cookie: 1}, {Op: "REOPEN"}}})
 }
